@@ -58,6 +58,29 @@ def is_tid(t: T, event_params: Set[str]) -> bool:
     return False
 
 
+def config_cache_store(e, first_key, event_params: Set[str]) -> bool:
+    """Is this keyed store a memo of a value computed from the key and the parser's configuration only?
+
+    Such a store cannot carry anything between threads: whoever stores it stores the same value.  A constant value
+    (a 'seen' marker), a value containing record data other than the key, and every removal are NOT of this kind."""
+    if e.kind != "sub-store" and not (e.kind == "mut-call" and e.key == "setdefault" and len(e.args) == 2):
+        return False
+    v = e.value if e.kind == "sub-store" else e.args[1]
+    if v is None or first_key is None:
+        return False
+    KEY = T("memo-key", ())
+    v2 = sym.subst(v, {first_key: KEY})
+    uses_config = False
+    for x in sym.walk(v2):
+        if x == EVENTS or (x.op == "param" and x.a[0] in event_params) or x.op == "elem":
+            return False
+        if x.op == "attr" and x.a[0] in (PARSER, SELF) and x.a[1] in CONFIG:
+            uses_config = True
+        if x.op == "global" and x.a[0].startswith("pykdebugparser.") and x.a[0].endswith(".handlers"):
+            uses_config = True
+    return uses_config
+
+
 def chain_of(path: T):
     """[root, step1, step2...] where steps are ('attr', name) or ('sub', key)."""
     steps = []
@@ -66,6 +89,9 @@ def chain_of(path: T):
         steps.append(("attr", cur.a[1]) if cur.op == "attr" else ("sub", cur.a[1]))
         cur = cur.a[0]
     return cur, list(reversed(steps))
+
+
+config_caches: Set[str] = set()
 
 
 def analyse(run: Run, rec: sym.Record, module: str, scope: str, event_params: Set[str], state_params: Dict[str, str],
@@ -92,7 +118,14 @@ def analyse(run: Run, rec: sym.Record, module: str, scope: str, event_params: Se
                     steps = steps + [("call", e.key)]
         scope_fn = e.func.rsplit(".", 1)[-1]
         key = (e.func, e.kind, sym.pretty(pth)[:80], str(e.key)[:40])
-        # ---- module-level / class-level objects
+        # ---- module-level / class-level objects, mutable default arguments
+        if root.op == "default":
+            if key not in seen:
+                seen.add(key)
+                run.ob("R3", module, scope_fn, f"{e.kind} default argument `{root.a[0]}`", False,
+                       f"{scope_fn} mutates its mutable default argument `{root.a[0]}`: one object shared by every call, so what "
+                       f"one decode stored is returned to another (of another thread, or of another kind)", line=e.lineno)
+            continue
         if root.op in ("global", "class", "func") and (root.op != "global" or root.a[0].startswith("pykdebugparser.")):
             if key not in seen:
                 seen.add(key)
@@ -132,6 +165,13 @@ def analyse(run: Run, rec: sym.Record, module: str, scope: str, event_params: Se
         ok = first is not None and first[0] == "sub" and is_tid(first[1], event_params)
         if first is not None and first[0] == "call":
             ok = False
+        if not ok and first is not None and first[0] == "sub" and config_cache_store(e, first[1], event_params):
+            # a memo of values computed from the key and the parser's configuration only (code table, decoder registry):
+            # whoever stores it stores the same value, so it cannot carry data between threads
+            run.ob("R1", module, scope_fn, construct, True,
+                   facts={"table": table, "note": "memo of a configuration-derived value"}, nontrivial=True, line=e.lineno)
+            config_caches.add(table)
+            continue
         if ok and e.value is not None and e.kind == "sub-store":
             vroot = sym.root_of(e.value)
             if vroot.op in ("class", "func") or (vroot.op == "global" and vroot.a[0].startswith("pykdebugparser.")):
@@ -166,7 +206,7 @@ def analyse(run: Run, rec: sym.Record, module: str, scope: str, event_params: Se
             elif root.op == "param" and root.a[0] in state_params:
                 table = state_params[root.a[0]]
                 rest = steps + [("sub", p.key)]
-            if table is None or table in GLOBAL_BY_DESIGN or table in CONFIG:
+            if table is None or table in GLOBAL_BY_DESIGN or table in CONFIG or table in config_caches:
                 if table in GLOBAL_BY_DESIGN:
                     tables_read.add(table)
                 continue
@@ -206,13 +246,6 @@ def check(repo: Repo, run: Run) -> None:
             state_params[fn.args.args[2].arg] = "on_going_*"
         total += analyse(run, rec, tp.module.name, f"TracesParser.{name}", ev_params, state_params, slots_written,
                          slots_read, tables_read, seen)
-    cp = repo.cls("callstacks_parser", "CallstacksParser")
-    for name, fn in cp.methods.items():
-        if name == "__init__":
-            continue
-        rec = interp.run(cp.module, fn, self_cls=cp)
-        total += analyse(run, rec, cp.module.name, f"CallstacksParser.{name}", set(), {}, slots_written, slots_read,
-                         tables_read, seen)
     D = decoders.Decoders(repo)
     D.interp = interp
     per_decoder_tables = {}
@@ -246,6 +279,30 @@ def check(repo: Repo, run: Run) -> None:
         run.ob("R2", tp.module.name, "TracesParser + decoders", "no scalar slot is written outside __init__", True)
     run.analysed.update({"decoders": n_dec, "state_writes_and_reads": total,
                          "decoders_reading_global_tables": per_decoder_tables})
+    # ---- R3 over every helper function of the decoder modules (helpers with loops are not inlined into decoders)
+    for mod in repo.modules.values():
+        if not mod.name.startswith("pykdebugparser.trace_handlers."):
+            continue
+        for fname, fnode in mod.functions.items():
+            rec = interp.run(mod, fnode)
+            for e in rec.effects:
+                pth = e.path if e.path is not None else e.base
+                if pth is None:
+                    continue
+                root, _ = chain_of(pth if e.kind != "attr-store" else T("attr", (pth, e.key)))
+                k = (e.func, e.kind, sym.pretty(pth)[:80], str(e.key)[:40])
+                if root.op == "default" and k not in seen:
+                    seen.add(k)
+                    run.ob("R3", mod.name, e.func.split(".<locals>")[0].rsplit(".", 1)[-1],
+                           f"{e.kind} default argument `{root.a[0]}`", False,
+                           f"{e.func.rsplit('.', 1)[-1]} mutates the mutable default argument `{root.a[0]}` of "
+                           f"{e.func.split('.<locals>')[0].rsplit('.', 1)[-1]}: one object shared by every call and every decoder "
+                           f"built from it", line=e.lineno)
+                elif root.op == "global" and root.a[0].startswith("pykdebugparser.") and k not in seen \
+                        and e.kind in ("sub-store", "mut-call", "del-sub", "attr-store"):
+                    seen.add(k)
+                    run.ob("R3", mod.name, fname, f"{e.kind} {sym.pretty(pth)[:60]}", False,
+                           f"{fname} mutates the module-level object {sym.pretty(root)}", line=e.lineno)
     run.floor("R1", "decoders analysed", n_dec, 440)
     run.floor("R1", "state writes/reads classified", total, 14)
     _canary(run, interp)
